@@ -68,6 +68,11 @@ Proof. exact round_trip_bytes_final. Qed.
 Theorem C18_built_archive_wf : forall b, wf_bin_bytes b -> ba_wf (arch_of (src_file_cells b) []).
 Proof. exact built_archive_wf. Qed.
 
+(* two values of the domain with the same image are equal *)
+Theorem C18_serialize_injective : forall m b1 b2 f,
+  wf_bin_bytes b1 -> wf_bin_bytes b2 -> serialize m b1 = Ok f -> serialize m b2 = Ok f -> b1 = b2.
+Proof. exact serialize_injective. Qed.
+
 Theorem C18_reserialize_identical : forall b a b',
   wf_bin b -> build b = Ok a -> from_archive a = Ok b' -> b' = b /\ build b' = Ok a.
 Proof. exact reserialize_identical_archive. Qed.
